@@ -201,7 +201,32 @@ func (e *Engine) invoke(st *state, fr *frame, in ssa.CallInstruction, recv *Val,
 
 func (e *Engine) objEvent(st *state, fr *frame, in ssa.CallInstruction, recv *Val, callee *ssa.Function, dir string, buf *Val, rt types.Type, sig *types.Signature) []callRes {
 	mk := func(s *state, failed bool) *Event {
-		return e.addEvent(s, fr, &Event{Kind: EvObj, Recv: recv, Callee: callee, Dir: dir, Buf: buf, ObjType: rt, Failed: failed}, in)
+		ev := e.addEvent(s, fr, &Event{Kind: EvObj, Recv: recv, Callee: callee, Dir: dir, Buf: buf, ObjType: rt, Failed: failed}, in)
+		// Decode into (part of) a record made on this path – a scratch value published later: what the part holds
+		// afterwards is what this Decode left there
+		if dir == "Decode" {
+			if a := stripCT(recv); a != nil && (a.Op == "field" || a.Op == "alloc") {
+				if root := addrRoot(a); root != nil && root.Op == "alloc" {
+					var et types.Type
+					if pt, ok := a.Type.Underlying().(*types.Pointer); ok {
+						et = pt.Elem()
+					}
+					if _, isStruct := typeUnder(et).(*types.Struct); isStruct && a.Op == "field" {
+						for k, me := range s.mem {
+							if k != a.Key() && isAncestorAddr(a, me.Addr) {
+								delete(s.mem, k)
+							}
+						}
+						name := ""
+						if failed {
+							name = "partial"
+						}
+						s.mem[a.Key()] = memEntry{Addr: a, V: &Val{Op: "decodedobj", ID: ev.ID, Name: name, Type: et}}
+					}
+				}
+			}
+		}
+		return ev
 	}
 	if sig.Results().Len() == 0 {
 		mk(st, false)
@@ -394,6 +419,7 @@ func (e *Engine) inline(st *state, fr *frame, in ssa.CallInstruction, fn *ssa.Fu
 	var groups []*group
 	idx := map[string]*group{}
 	var res []callRes
+	outs = subsumeZeroCount(outs, base)
 	outs = mergePureForks(st, outs, startID)
 	for _, o := range outs {
 		switch o.kind {
@@ -1603,4 +1629,129 @@ func arraySegment(sl *Val, width int64) (base *Val, off, total int, ok bool) {
 		return nil, 0, 0, false
 	}
 	return base, int(lo), int(arr.Len()), true
+}
+
+// subsumeZeroCount drops a callee outcome that is the zero-count shortcut of another one: `if count == 0 { return
+// []T{}, nil }` in front of a loop that collects count elements onto a fresh empty slice. With count zero the loop
+// outcome does exactly what the shortcut does (no iteration, no read, a non-nil empty list), so the loop outcome without
+// its `count != 0` condition covers both; a caller with k lists keeps one path instead of 2^k.
+func subsumeZeroCount(outs []*outcome, base int) []*outcome {
+	zeroCond := func(c Cond) *Val { // the value the condition says is zero
+		if c.V.Op != "binop" || len(c.V.Args) != 2 {
+			return nil
+		}
+		eq := (c.V.Name == "==" && c.Taken) || (c.V.Name == "!=" && !c.Taken)
+		if !eq {
+			return nil
+		}
+		for side := 0; side < 2; side++ {
+			if k, ok := c.V.Args[1-side].Int64(); ok && k == 0 {
+				return c.V.Args[side]
+			}
+		}
+		return nil
+	}
+	drop := map[*outcome]bool{}
+	for _, a := range outs {
+		if a.kind != oReturn || len(a.st.conds) <= base {
+			continue
+		}
+		last := a.st.conds[len(a.st.conds)-1]
+		cnt := zeroCond(last)
+		if cnt == nil || affOf(cnt).Top {
+			continue
+		}
+		for _, b := range outs {
+			if b == a || b.kind != oReturn || drop[b] || len(b.ret) != len(a.ret) || len(b.st.conds) != len(a.st.conds) || len(b.st.events) <= len(a.st.events) {
+				continue
+			}
+			ok := true
+			for i := base; i < len(a.st.conds)-1; i++ {
+				if a.st.conds[i].V.Key() != b.st.conds[i].V.Key() || a.st.conds[i].Taken != b.st.conds[i].Taken {
+					ok = false
+				}
+			}
+			bl := b.st.conds[len(b.st.conds)-1]
+			if !ok || bl.V.Key() != last.V.Key() || bl.Taken == last.Taken {
+				continue
+			}
+			for i, ev := range a.st.events {
+				if b.st.events[i] != ev {
+					ok = false
+				}
+			}
+			if !ok {
+				continue
+			}
+			// what the loop outcome does beyond the shortcut: look at the buffer's length, reserve, iterate count times
+			reps := 0
+			for _, ev := range b.st.events[len(a.st.events):] {
+				switch {
+				case ev.Kind == EvLen || ev.Kind == EvPanicSite:
+				case ev.Kind == EvAlloc && ev.Mode == "makeslice":
+				case ev.Kind == EvRep && !ev.Partial && ev.Count != nil && affOf(ev.Count).Equal(affOf(cnt)):
+					reps++
+				default:
+					ok = false
+				}
+			}
+			if !ok || reps != 1 {
+				continue
+			}
+			for i := range a.ret {
+				ra, rb := stripCT(a.ret[i]), stripCT(b.ret[i])
+				if ra.Key() == rb.Key() {
+					continue
+				}
+				good := false
+				if freshEmptySlice(ra) && rb.Op == "collect" && len(rb.Args) == 3 && affOf(rb.Args[2]).Equal(affOf(cnt)) {
+					if init := stripCT(rb.Args[0]); init.Op == "makeslice" && len(init.Args) > 0 {
+						if n, isC := init.Args[0].Int64(); isC && n == 0 {
+							good = true
+						}
+					}
+				}
+				if !good {
+					ok = false
+				}
+			}
+			if !ok {
+				continue
+			}
+			// memory: the shortcut must not have stored anything the loop outcome does not
+			for k, me := range a.st.mem {
+				if mb, has := b.st.mem[k]; !has || mb.V.Key() != me.V.Key() {
+					if root := addrRoot(me.Addr); root == nil || !(root.Op == "alloc" || root.Op == "makeslice") {
+						ok = false
+					}
+				}
+			}
+			if !ok {
+				continue
+			}
+			drop[a] = true
+			nb := *b
+			nst := b.st.clone()
+			// (the condition is replaced, not removed: events index the conditions in force when they happened)
+			nst.conds = append([]Cond(nil), b.st.conds...)
+			nst.conds[len(nst.conds)-1] = Cond{V: mkBool(true), Taken: true, Pos: bl.Pos, Fn: bl.Fn}
+			nb.st = nst
+			for i, o := range outs {
+				if o == b {
+					outs[i] = &nb
+				}
+			}
+			break
+		}
+	}
+	if len(drop) == 0 {
+		return outs
+	}
+	var kept []*outcome
+	for _, o := range outs {
+		if !drop[o] {
+			kept = append(kept, o)
+		}
+	}
+	return kept
 }
